@@ -198,7 +198,10 @@ def mix_top(nch, npl, nrg, ring):
             b.append("%d 1 1 0.47 100" % n)
         return "\n".join(b)
     ring2 = ring + 2 if ring < 10 else ring - 3     # a second cyclic molecule type of another size
-    return MIX_TOP % (atoms(8, ["RA", "RB"]), bonds(8), atoms(10, ["RA"]), bonds(10), atoms(ring, ["RC"]), bonds(ring, True),
+    # PL: chain of 10 with a one-residue side branch (residue 11) on residue 4, listed BEFORE the backbone bond 4-5 so that a
+    # depth-first build order visits the branch between residues 4 and 5
+    pl_bonds = "\n".join(["%d %d 1 0.47 100" % (i, i + 1) for i in range(1, 4)] + ["4 11 1 0.47 100"] + ["%d %d 1 0.47 100" % (i, i + 1) for i in range(4, 10)])
+    return MIX_TOP % (atoms(8, ["RA", "RB"]), bonds(8), atoms(11, ["RA"]), pl_bonds, atoms(ring, ["RC"]), bonds(ring, True),
                       atoms(ring2, ["RC"]), bonds(ring2, True), nch, npl, nrg)
 
 
@@ -240,7 +243,8 @@ def random_bld(rng, box, nch):
         rlo = rng.randint(2, 5)
         # (the growth direction is restricted on the third CH molecule, not on the one confined to the face region: both together are rarely satisfiable)
         rw = {"id": k, "kind": "rw", "mname": "CH", "mlo": nch - 1, "mhi": nch, "rn": rng.choice(["RA", "RB"]), "rlo": rlo, "rhi": rlo + 4,
-              "normal": [0.0, 0.0, 1.0], "angle": rng.choice([90.0, 70.0, 50.0])}
+              "normal": rng.choice([[0.0, 0.0, 1.0], [0.0, 0.0, 2.0], [1.0, 1.0, 0.0], [0.0, -1.5, 0.5], [0.5, 0.0, 0.0], [2.0, -1.0, 2.0]]),
+              "angle": rng.choice([90.0, 70.0, 50.0])}     # the direction vector need not have unit length (the code normalises it)
     dist = {"mname": "CH", "mlo": 0, "mhi": nch, "ref": rng.choice([0, 1, 2, 2]), "target": rng.choice([5, 6, 7]), "d": round(rng.uniform(0.8, 1.8), 2), "tol": round(rng.uniform(0.1, 0.3), 2)}
     if rng.random() < 0.5:
         dist["ref"], dist["target"] = dist["target"], dist["ref"]
@@ -291,15 +295,44 @@ def _e2e(arg):
         dist_lines.reverse()
     text = list(txt)
     if rw:
-        text.append("[ molecule ]\nCH %d %d\n[ rw_restriction ]\n%s %d %d %.1f %.1f %.1f %.1f" % (rw["mlo"], rw["mhi"], rw["rn"], rw["rlo"], rw["rhi"], 0.0, 0.0, 1.0, rw["angle"]))
+        text.append("[ molecule ]\nCH %d %d\n[ rw_restriction ]\n%s %d %d %.1f %.1f %.1f %.1f" % (rw["mlo"], rw["mhi"], rw["rn"], rw["rlo"], rw["rhi"], rw["normal"][0], rw["normal"][1], rw["normal"][2], rw["angle"]))
     text.append("[ molecule ]\nCH %d %d\n[ distance_restraints ]\n%s" % (dist["mlo"], dist["mhi"], "\n".join(dist_lines)))
-    text.append("[ molecule ]\nPL %d %d\n[ persistence_length ]\nWCM %.2f 0 9" % (nch, nch + npl, lp))
+    # the two ends of the persistence restraint: chain ends, either order, or a start INSIDE the chain (the path between the
+    # two is then not a prefix of the build order, and the side branch on residue 4 lies between them for some choices)
+    pl_start, pl_stop = rng.choice([(0, 9), (9, 0), (2, 8), (7, 1), (5, 0), (4, 9), (3, 6), (1, 10)])
+    text.append("[ molecule ]\nPL %d %d\n[ persistence_length ]\nWCM %.2f %d %d" % (nch, nch + npl, lp, pl_start, pl_stop))
     samples = {}
     o_gen = pers.generate_end_end_distances
 
     def gen(specs, avg, maxlen, box, limit_prob=1e-5, seed=None):
         r = o_gen(specs, avg, maxlen, box, limit_prob=limit_prob, seed=seed)
         samples.update({"mols": [int(x) for x in specs.mol_idxs], "ee": [float(x) for x in r], "avg": float(avg), "contour": float(maxlen)})
+        return r
+
+    from polyply.src import build_system as bsys
+    o_sample = bsys.sample_end_to_end_distances
+
+    def sample(topology, nonbond_matrix, seed=None):
+        """the sampling itself is judged when it happens (a run that later times out still has a verdict on it): contour length and
+        average step by the monitor's own path - the shortest path between the two ends in the residue graph, each edge as long as
+        the pair size the engine holds for it - against what the code passed to the sampler, and every sample within [step, contour)"""
+        r = o_sample(topology, nonbond_matrix, seed=seed)
+        import networkx as _nx
+        own_path = _nx.shortest_path(_nx.Graph(list(topology.molecules[nch].edges)), pl_start, pl_stop)
+        contour = sum(float(nonbond_matrix.get_interaction(nch, nch, a, b)[0]) for a, b in zip(own_path[:-1], own_path[1:]))
+        avg = contour / (len(own_path) - 1)
+        why = []
+        if not samples:
+            why.append("no end-to-end distances were sampled")
+        else:
+            if abs(samples["avg"] - avg) > 1e-9 or abs(samples["contour"] - contour) > 1e-9:
+                why.append("sampler was given step %.4f / contour %.4f, the path %s has step %.4f / contour %.4f" % (samples["avg"], samples["contour"], own_path, avg, contour))
+            bad = [ee for ee in samples["ee"] if not (avg - 1e-9 <= ee < contour)]
+            if bad:
+                why.append("sampled end-to-end distances %s outside [%.4f, %.4f)" % (bad, avg, contour))
+            if sorted(samples["mols"]) != list(range(nch, nch + npl)):
+                why.append("molecules sampled: %s" % samples["mols"])
+        samples["own"] = {"path": [int(x) for x in own_path], "contour": contour, "avg": avg, "why": why}
         return r
 
     def monitor(rec, ev):
@@ -329,7 +362,7 @@ def _e2e(arg):
                     v = p - q
                     nrm = np.asarray(rw["normal"])
                     sgn = np.sign(np.dot(nrm, v))
-                    ang = np.degrees(np.arccos(np.clip(np.dot(nrm, v) / np.linalg.norm(v), -1, 1)))
+                    ang = np.degrees(np.arccos(np.clip(np.dot(nrm, v) / (np.linalg.norm(v) * np.linalg.norm(nrm)), -1, 1)))
                     obs["dir_ok"] = bool(sgn == np.sign(rw["angle"]) and ang <= abs(rw["angle"]) + 1e-6)
             ev["rids"], ev["obs"] = sorted(rids), obs
         elif ev["ev"] == "finish":
@@ -353,16 +386,23 @@ def _e2e(arg):
                     raw.append(["ring", mi, dd])
                     pairs_ok = pairs_ok and (dd <= cyc_tol + SIG + 1e-6)
             ee_ok = bool(samples) and sorted(samples.get("mols", [])) == list(range(nch, nch + npl))
+            # contour length and average step by the monitor's own path: the shortest path between the two ends in the residue
+            # graph, each edge as long as the pair size the engine holds for it (what the code passed to the sampler is compared with it)
+            own = samples.get("own", {"contour": 0.0, "avg": 0.0, "why": ["sampling was not observed"]})
+            contour, avg = own["contour"], own["avg"]
+            ee_ok = ee_ok and not own["why"]
+            raw.append(["contour", contour, samples.get("contour"), avg, samples.get("avg")])
             for mi, ee in zip(samples.get("mols", []), samples.get("ee", [])):
-                dd = dist_of(mi, 0, 9)
+                dd = dist_of(mi, pl_start, pl_stop)
                 raw.append(["ee", mi, ee, dd])
-                ee_ok = ee_ok and (samples["avg"] - 1e-9 <= ee < samples["contour"]) and (ee - 1e-6 <= dd <= ee + samples["avg"] + 1e-6)
+                ee_ok = ee_ok and (avg - 1e-9 <= ee < contour) and (ee - 1e-6 <= dd <= ee + avg + 1e-6)
             ev["obs"], ev["raw"] = {"pairs_ok": bool(pairs_ok), "ee_ok": bool(ee_ok)}, {"pairs": raw}
     np.random.seed(sd)
     random.seed(sd)
     signal.signal(signal.SIGALRM, _alarm)
     signal.setitimer(signal.ITIMER_REAL, 60, 5)
     pers.generate_end_end_distances = gen
+    bsys.sample_end_to_end_distances = sample
     try:
         with tempfile.TemporaryDirectory(prefix="verif_c07_", dir="/var/tmp") as wd:
             wd = Path(wd)
@@ -392,7 +432,7 @@ def _e2e(arg):
                     gen_coords(toppath=wd / "m.top", outpath=wd / "o.gro", name="m", box=np.array([box] * 3), build=[wd / "m.bld"], cycles=["RG", "RH"], cycle_tol=cyc_tol,
                                max_force=5e4, grid_spacing=0.4, nrewind=nrew)
                 except _Timeout:
-                    return {"noverdict": "timeout"}
+                    return {"noverdict": "timeout", "samples": samples, "text": "\n".join(text)}
                 except Exception as exc:
                     return {"inst": rec.header, "evs": rec.events[-20:], "error_in_code": "%s: %s" % (type(exc).__name__, exc), "bld": "\n".join(text)}
             geo = [{"id": e["id"], "mname": e["mname"], "mlo": e["mlo"], "mhi": e["mhi"], "rn": e["rn"], "rlo": e["rlo"], "rhi": e["rhi"]} for e in ents]
@@ -400,9 +440,10 @@ def _e2e(arg):
                 geo.append({"id": rw["id"], "mname": rw["mname"], "mlo": rw["mlo"], "mhi": rw["mhi"], "rn": rw["rn"], "rlo": rw["rlo"], "rhi": rw["rhi"]})
             return {"inst": rec.header, "evs": rec.events, "error_in_code": None, "bld": geo, "text": "\n".join(text), "samples": samples}
     except _Timeout:
-        return {"noverdict": "timeout"}
+        return {"noverdict": "timeout", "samples": samples, "text": "\n".join(text)}
     finally:
         pers.generate_end_end_distances = o_gen
+        bsys.sample_end_to_end_distances = o_sample
         signal.setitimer(signal.ITIMER_REAL, 0)
 
 
@@ -464,6 +505,10 @@ def run(tier):
     traces, nov = [], 0
     for a_, out in zip(args, outs):
         s, r = a_[0], a_[1]
+        why = (out.get("samples") or {}).get("own", {}).get("why")
+        if why:     # judged at sampling time, whether or not the run went on to finish
+            ck.violation({"kind": "e2e", "seed": s, "ring": r, "small_box": len(a_) > 2, "sampling": out["samples"], "build_file": out.get("text")},
+                         what="persistence-length sampling (seed %d): %s" % (s, "; ".join(why)[:500]))
         if "noverdict" in out:
             nov += 1
             continue
@@ -511,6 +556,10 @@ def replay(path):
     ck = c.Check("C07", "quick")
     if out.get("error_in_code"):
         print("replayed:", out["error_in_code"])
+        return 1
+    why = (out.get("samples") or {}).get("own", {}).get("why")
+    if why:
+        print("replayed: persistence-length sampling:", "; ".join(why))
         return 1
     if "noverdict" in out:
         print("replayed: no verdict")
